@@ -51,6 +51,11 @@ let show_change = function
   | ModifyTable (t, cs) -> Printf.sprintf "M:%d:%s" (show_t t) (String.concat "," (Stdlib.List.map show_tc cs))
 
 let show_out l = "[" ^ String.concat " " (Stdlib.List.map show_change l) ^ "]"
+(* more than 12 changes: Go's sort.Slice is no longer the stable insertion sort of the executable model; the
+   harness then compares the multiset of planned changes (and the replay verdict) *)
+let big = ref false
+let show_obs l =
+  if !big then "{" ^ String.concat " " (Stdlib.List.sort compare (Stdlib.List.map show_change l)) ^ "}" else show_out l
 
 let () =
   let _mode = if Array.length Sys.argv > 1 then Sys.argv.(1) else "plan" in
@@ -78,6 +83,7 @@ let () =
           | ModifySchema s -> "U" ^ string_of_int (int_of_nat s) in
         let nc = next_int () in
         let cs = times nc parse_change in
+        big := nc > 12;
         let verdict l = match replay l c0 with Some _ -> "ok" | None -> "fail" in
         if _mode = "raw" then
           (match sortChanges cs with
@@ -91,11 +97,11 @@ let () =
            Stdlib.List.iter (fun k -> Printf.printf "%s %s out=outoffuel\n" id k) ["sort"; "mysql"; "pg"]
          | Some (tops, l) ->
            let top = if npre = 0 then "" else " top=" ^ String.concat "," (Stdlib.List.map show_s tops) in
-           Printf.printf "%s sort out=%s replay=%s\n" id (show_out l) (verdict l);
+           Printf.printf "%s sort out=%s replay=%s\n" id (show_obs l) (verdict l);
            let m = Stdlib.List.concat_map mysql_sources l in
-           Printf.printf "%s mysql out=%s replay=%s%s\n" id (show_out m) (verdict m) top;
+           Printf.printf "%s mysql out=%s replay=%s%s\n" id (show_obs m) (verdict m) top;
            let p = Stdlib.List.concat_map pg_sources l in
-           Printf.printf "%s pg out=%s replay=%s%s\n" id (show_out p) (verdict p) top)
+           Printf.printf "%s pg out=%s replay=%s%s\n" id (show_obs p) (verdict p) top)
       end
     done
   with End_of_file -> ())
